@@ -227,8 +227,24 @@ func (w *shimWorld) exec(op bfs.Op) (r opResult) {
 		}
 	})
 	vtime.Set(w.clock)
+	if r.panic == "" && w.shim != nil {
+		// single-threaded here: a lock of the shim that cannot be taken now was left held by the call that just returned
+		if held := introspect.LocksHeld(w.shim); len(held) > 0 {
+			r.panic = fmt.Sprintf("%s: %s(%s) returned with %v still held; the next caller would block for ever", lockLeftHeld, op.Name, op.Arg, held)
+		}
+	}
 	w.last = r
 	return r
+}
+
+const lockLeftHeld = "LOCK-LEFT-HELD"
+
+// panicKey names a crash finding; a leaked lock gets its own key.
+func panicKey(p string) string {
+	if strings.HasPrefix(p, lockLeftHeld) {
+		return "lock-left-held"
+	}
+	return "panic:" + ev.PanicSite(p)
 }
 
 // memBlobs returns the certificates in the shim's in-memory table (found by reflection, no field named).
